@@ -45,6 +45,18 @@ def _layout(X, p):
     raise ValueError(lay)
 
 
+def _intseq(vals, form):
+    """a sequence of integers in the form the caller might hold it: list (default), tuple, ndarray, list of numpy ints"""
+    vals = [int(v) for v in vals]
+    if form == "tuple":
+        return tuple(vals)
+    if form == "array":
+        return np.array(vals)
+    if form == "npint":
+        return [np.int64(v) for v in vals]
+    return list(vals)
+
+
 def _eq(got, exp, what):
     got = np.asarray(got)
     exp = np.asarray(exp)
@@ -137,7 +149,7 @@ def ps_index(p):
     else:
         Xin = _layout(X, p)
     dim = _dim_arg(p, rd, cd)
-    args = [Xin, list(p["perm"]), dim]
+    args = [Xin, _intseq(p["perm"], p.get("permform")), dim]
     if not p.get("defaults"):
         args += [bool(p["row_only"]), bool(p["inv"])]
     got = permute_systems(*args)
@@ -294,10 +306,14 @@ def ptrace_index(p):
     N = int(np.prod(d))
     X = _entries((N, N), p.get("entries", "arange"))
     S = list(p["sys"])
-    sys_arg = int(S[0]) if p.get("sysform") == "int" else S
+    sys_arg = int(S[0]) if p.get("sysform") == "int" else (np.int64(S[0]) if p.get("sysform") == "npint-scalar" else _intseq(S, p.get("sysform")))
     form = p.get("dimform", "list")
     if form == "list":
         dim = list(d)
+    elif form == "tuple":
+        dim = tuple(int(x) for x in d)
+    elif form == "npint":
+        dim = [np.int64(x) for x in d]
     elif form == "array":
         dim = np.array(d)
     elif form == "scalar":
